@@ -185,6 +185,40 @@ impl Engine for C05 {
             }
             out.push(Program { keys: lkeys, blobs: blobs.to_vec(), steps });
         }
+        // buckets of more than 1 MiB that are deleted (full removal / clear) or tombstoned and
+        // then grown again, observed ONLY at the marked points: anything a reader remembers
+        // about a big bucket between two lookups is stale by the second one
+        for (vi, (raw_len, n1, n2)) in [(100_000usize, 3usize, 4usize), (100_000, 4, 4), (40_000, 8, 9), (300_000, 1, 2)].into_iter().enumerate() {
+            for removal in 0..3usize {
+                for look in [Fl::Sync, Fl::Async] {
+                    let qkeys = vec!["quiet-big-bucket".to_string(), "bystander".to_string()];
+                    let mut steps = vec![Step { op: Op::Write(WriteSpec::simple(Some(1), 2)), fl: Fl::Sync }];
+                    let big = |i: usize, blob: usize| {
+                        let mut w = WriteSpec::simple(Some(0), blob);
+                        w.entry = WEntry::Opts;
+                        w.time = Some((5000 + i).to_string());
+                        w.raw_metadata = Some(crate::gen::huge_raw_meta(raw_len + i, (i * 3 + vi) as u8));
+                        Step { op: Op::Write(w), fl: if i % 2 == 0 { Fl::Sync } else { Fl::Async } }
+                    };
+                    for i in 0..n1 {
+                        steps.push(big(i, i % 2));
+                    }
+                    steps.push(Step { op: Op::Meta { key: 0 }, fl: look });
+                    steps.push(Step { op: Op::List, fl: Fl::Sync });
+                    steps.push(match removal {
+                        0 => Step { op: Op::RemoveOpts { key: 0, fully: true }, fl: Fl::Sync },
+                        1 => Step { op: Op::Clear, fl: Fl::Async },
+                        _ => Step { op: Op::Remove { key: 0 }, fl: Fl::Sync },
+                    });
+                    for i in 0..n2 {
+                        steps.push(big(100 + i, 1 + i % 2));
+                    }
+                    steps.push(Step { op: Op::Meta { key: 0 }, fl: look });
+                    steps.push(Step { op: Op::List, fl: Fl::Sync });
+                    out.push(Program { keys: qkeys, blobs: blobs.to_vec(), steps });
+                }
+            }
+        }
         if tier == Tier::Thorough {
             // length 5 over a 6-symbol sub-alphabet
             let sub: Vec<Step> = [0usize, 1, 4, 6, 7, 10].iter().map(|&i| al[i].clone()).collect();
@@ -196,7 +230,7 @@ impl Engine for C05 {
     }
     fn exhaustive_note(&self, tier: Tier) -> String {
         format!(
-            "all histories of length 1..={} over a 12-symbol alphabet (2 keys + 1 never-written key, 3 values, sync and async){}",
+            "all histories of length 1..={} over a 12-symbol alphabet (2 keys + 1 never-written key, 3 values, sync and async); block-boundary, index-neighbour and long single-key histories; 24 histories that grow a bucket past 1 MiB, delete or tombstone it and grow it again, observed at marked points only{}",
             tier.pick(3, 4),
             tier.pick("", "; all length-5 histories over a 6-symbol sub-alphabet")
         )
@@ -245,8 +279,15 @@ impl Engine for C05 {
                 Op::ForeignRecord { .. } => nontrivial = true,
                 _ => {}
             }
-            basic::sweep_keys(&ctx, &mut model, st, true, i).map_err(|e| format!("after {}: {e}", basic::describe_step(prog, i)))?;
+            // observation frequency varies: "quiet" programs (and a third of all others) are
+            // observed through their own lookup steps and one sweep at the end only — a sweep
+            // after every step would refresh whatever a reader remembers between lookups
+            let quiet = prog.keys[0].starts_with("quiet-") || (hash_of(prog) >> 11) % 3 == 0;
+            if !quiet || i + 1 == prog.steps.len() {
+                basic::sweep_keys(&ctx, &mut model, st, true, i).map_err(|e| format!("after {}: {e}", basic::describe_step(prog, i)))?;
+            }
         }
+        ctx.cache_is_same_dir()?;
         st.class(if prog.steps.iter().any(|s| matches!(s.op, Op::ForeignRecord { .. })) { "has_foreign_record" } else { "no_foreign_record" });
         if prog.steps.iter().any(|s| s.fl == Fl::Sync) && prog.steps.iter().any(|s| s.fl == Fl::Async) {
             st.class("mixed_sync_async");
@@ -258,7 +299,7 @@ impl Engine for C05 {
             st.class("nontrivial");
             st.nontrivial(hash_of(prog));
         }
-        st.sample(|| serde_json::to_value(prog).unwrap());
+        st.sample(|| super::progeng::compact_program(prog));
         Ok(())
     }
 }
